@@ -249,7 +249,7 @@ func TestC05_Planted(t *testing.T) {
 		if class == missLeafMap && len(parts) < 2 {
 			class = missRoot
 		}
-		c := &c05Case{Class: class, Datum: root, Lit: []byte([]string{"a", "1", "", "true"}[rapid.IntRange(0, 3).Draw(t, "lit")])}
+		c := &c05Case{Class: class, Datum: root, Lit: []byte([]string{"a", "1", "", "true", "(", "[0-9", "a{2,1}", "99999999999999999999", "Inf"}[rapid.IntRange(0, 8).Draw(t, "lit")])}
 		for _, p := range parts {
 			c.Sel = append(c.Sel, []byte(p))
 		}
@@ -348,7 +348,7 @@ func TestC05_Cross(t *testing.T) {
 				continue
 			}
 			for _, unk := range unknowns {
-				for _, lit := range []string{"a", "1"} {
+				for _, lit := range []string{"a", "1", "("} { // "(": not a regular expression, not a number
 					c := &c05Case{Class: class, Datum: w.root, Unknown: unk, Lit: []byte(lit)}
 					for _, p := range parts {
 						c.Sel = append(c.Sel, []byte(p))
